@@ -109,7 +109,14 @@ def random_history(rng, spec, nsteps, edit_kinds, build_cfgs, final_build=None):
     cur = spec
     for _ in range(nsteps):
         if rng.random() < 0.5:
-            steps.append(["build", dict(rng.choice(build_cfgs))])
+            cfg = dict(rng.choice(build_cfgs))
+            if cfg.get("sub") == "?":      # build restricted to one of the project's sub-directories (if the layout has any)
+                subs = sorted(set(cur.get("subdirs", {}).values()))
+                if subs:
+                    cfg["sub"] = rng.choice(subs)
+                else:
+                    del cfg["sub"]
+            steps.append(["build", cfg])
         else:
             e = random_edit(rng, cur, state, edit_kinds)
             if e is not None:
